@@ -68,10 +68,10 @@ def sampler_rules(check: Check):
       stores = _self_attr_stores(mth)
       others = [s for s in stores if s.attr != '_round_num']
       for s in others:
-        check.ob('R-PURE', mth, txt(s), False, f'{ci.name}.{name} writes self.{s.attr}: sampling would depend on call history', node=s)
+        check.ob('R-PURE', mth, txt(s), False, f'{ci.name}.{name} writes self.{s.attr}: sampling would depend on call history', node=s, exact=True)
       muts = [mu for mu in pa.mutations(mth) if mu.root in mth.params and not (mu.root == 'self' and '_round_num' in mu.construct)]
       for mu in muts:
-        check.ob('R-PURE', mth, mu.construct, False, f'{mu.how} through {mu.root}', node=mu.node)
+        check.ob('R-PURE', mth, mu.construct, False, f'{mu.how} through {mu.root}', node=mu.node, exact=True)
       if not others and not muts:
         check.ob('R-PURE', mth, f'{ci.name}.{name}', True, f'writes only self._round_num ({len(stores)} store(s))')
   _get_sampler(check, get)
